@@ -149,6 +149,8 @@ type c10Run struct {
 	tiers      map[string]bool
 	pdbBlocked bool
 	crossed    bool
+	// dueReconciles: reconciles of a running pod past the delete time of the earliest deadline it was queued under
+	dueReconciles int
 }
 
 func runC10(s *c10Scenario, faultIdx, faultKind int) *c10Run {
@@ -239,6 +241,10 @@ func runC10(s *c10Scenario, faultIdx, faultKind int) *c10Run {
 		}
 		return w.GracefulEvict(cur)
 	}
+	deleteSeen := map[types.UID]bool{}
+	active := func(p *corev1.Pod) bool {
+		return p != nil && p.DeletionTimestamp == nil && p.Status.Phase != corev1.PodSucceeded && p.Status.Phase != corev1.PodFailed
+	}
 	// monitors on every pod-removing call the controller issues
 	w.Monitors = append(w.Monitors, func(w *sim.World, c *sim.Call) {
 		if !inController || c.Kind != "Pod" {
@@ -273,6 +279,7 @@ func runC10(s *c10Scenario, faultIdx, faultKind int) *c10Run {
 				violate("evicted:terminating", "eviction issued for pod %s, which is already terminating", cur.Name)
 			}
 		case c.Verb == "delete":
+			deleteSeen[pod.UID] = true
 			if c.GracePeriod == nil || *c.GracePeriod < 1 {
 				violate("delete:zero-grace", "pod %s deleted directly with grace period %v", pod.Name, c.GracePeriod)
 			}
@@ -407,9 +414,28 @@ func runC10(s *c10Scenario, faultIdx, faultKind int) *c10Run {
 			if cur == nil {
 				continue
 			}
+			// a running pod that was queued under a deadline is deleted directly by the first reconcile after that
+			// deadline minus its grace period has passed, however often it was re-queued under later deadlines since
+			due := false
+			if ctr := truth[cur.UID]; ctr != nil && faultIdx == 0 && active(cur) && len(ctr.deadlines) > 0 && cur.Spec.TerminationGracePeriodSeconds != nil {
+				eff := ctr.deadlines[0]
+				for _, d := range ctr.deadlines {
+					if d.Before(eff) {
+						eff = d
+					}
+				}
+				due = w.Clock.Now().After(eff.Add(-time.Duration(*cur.Spec.TerminationGracePeriodSeconds) * time.Second))
+			}
+			delete(deleteSeen, cur.UID)
 			inController = true
 			_, _ = q.Reconcile(w.Ctx, cur)
 			inController = false
+			if due {
+				r.dueReconciles++
+				if !deleteSeen[cur.UID] {
+					violate("delete:earlier-deadline-forgotten", "pod %s was queued under a node deadline whose delete time has passed, but the reconcile at %s did not delete it (it is handled under a later deadline or none)", cur.Name, w.Clock.Now().Sub(start))
+				}
+			}
 		case "clock":
 			before := w.Clock.Now()
 			w.Clock.Step([]time.Duration{5 * time.Second, 30 * time.Second, 2 * time.Minute, 15 * time.Minute}[op.Arg%4])
@@ -455,7 +481,7 @@ func runC10(s *c10Scenario, faultIdx, faultKind int) *c10Run {
 		}
 		// the deadline guarantee covers a pod for as long as it stays queued; once handled and dequeued it starts afresh
 		for _, tr := range byIdx {
-			if cur := getPod(tr.name); cur == nil || cur.UID != tr.uid || !q.Has(cur) {
+			if cur := getPod(tr.name); cur == nil || cur.UID != tr.uid || (!q.Has(cur) && !active(cur)) {
 				tr.deadlines, tr.nilQueued = nil, false
 			}
 		}
@@ -481,6 +507,7 @@ func execC10(s *c10Scenario, c *ev.Ctx) {
 	c.ClassIf(len(base.tiers) >= 2, "two_tiers")
 	c.ClassIf(base.pdbBlocked, "pdb_blocked")
 	c.ClassIf(base.crossed, "crossed_deadline_minus_grace")
+	c.ClassIf(base.dueReconciles > 0, "reconcile_past_delete_time_of_earliest_deadline")
 	c.NTIf(len(base.tiers) >= 2 && (base.pdbBlocked || base.crossed))
 	c.Sample(map[string]any{"pods": len(s.Pods), "ops": len(s.Ops), "writes": base.writes, "executions": executions})
 }
@@ -488,7 +515,7 @@ func execC10(s *c10Scenario, c *ev.Ctx) {
 var propC10 = ev.Prop[c10Scenario]{
 	ID: "C10", Test: "TestC10", Level: "fault_enumeration",
 	Rule: "rapid draws a node with 2-8 pods over {critical, daemon, grace nil/0/30/600, do-not-disrupt true/duration-vs-age/garbage, static, tolerating the disruption taint, terminating since t, terminal, PDB allowed/blocking/two PDBs} and 4-36 operations from {Terminator.Drain with deadline none/past/+20s/+60s/+15m (later calls may tighten or loosen it), eviction Queue.Reconcile of a chosen pod, clock +5s/30s/2m/15m, a new pod lands, a pod is replaced under the same name with a new UID, kubelet finishes a terminating pod, a PDB unblocks}; the eviction sub-resource is emulated (429 / multi-PDB 500 / graceful delete); a fault-free run counts the controller's API writes and EVERY write index is failed once (500 or 429); " +
-		"oracle (monitors at the instant of every pod-removing call): only evictions and deletes with grace >=1; no eviction of do-not-disrupt-active, static, taint-tolerating, terminal or terminating pods; direct delete only for a pod queued under a node deadline, no earlier than earliest deadline minus pod grace (or terminating past the deadline), with grace <= what the EARLIEST deadline leaves; after each Drain a daemon/critical pod newly queued for graceful eviction implies no waiting non-critical non-daemon pod; nothing undrainable is queued; " +
+		"oracle (monitors at the instant of every pod-removing call): only evictions and deletes with grace >=1; no eviction of do-not-disrupt-active, static, taint-tolerating, terminal or terminating pods; direct delete only for a pod queued under a node deadline, no earlier than earliest deadline minus pod grace (or terminating past the deadline), with grace <= what the EARLIEST deadline leaves; a running pod stays covered by the earliest deadline it was queued under until it is evicted, deleted or gone, and the first reconcile past that deadline minus its grace deletes it; after each Drain a daemon/critical pod newly queued for graceful eviction implies no waiting non-critical non-daemon pod; nothing undrainable is queued; " +
 		"non-trivial = both tiers present and (a PDB blocked an eviction or the clock crossed deadline-grace)",
 	Assumptions: []string{"the finer four-tier order the code implements is not judged, only the two-tier order the property states"},
 	Draw:        drawC10, Exec: execC10, ReplayTries: 3,
